@@ -27,7 +27,7 @@ P = {
  "C10": ("metamorphic relation on logical lines / logical cursor across generated resize chains",
          "The logical-line and logical-cursor relation stated by the property is checked before/after every resize of generated primary-screen histories.", "§4 C10"),
  "C11": ("round-trip through dump() judged by a behavioural probe battery + random continuations",
-         "Original and dump-restored terminals are compared under a fixed probe battery exposing each hidden component, every cut position of short histories, and random continuations; two listed known findings are excluded/recognised semantically.", "§4 C11"),
+         "Original and dump-restored terminals are compared under a fixed probe battery exposing each hidden component, every cut position of short histories, and random continuations; three listed known findings (K1 excluded by history, K2 and K3 recognised by semantic signatures on replicas) are counted, not reported; their neighbourhood is enumerated and must pass.", "§4 C11"),
  "C12": ("differential: whole input vs every chunking (all single cuts <=64 chars, all cut subsets <=10 chars, per-char feed_str and feed())",
          "All chunkings of generated inputs (structured and raw) must agree on visible state, lines() (unlimited), and hidden modes under the probe battery.", "§4 C12"),
  "C13": ("invariant after every feed_str/resize over generated scroll-heavy histories with all drain patterns",
